@@ -215,6 +215,9 @@ class C10:
             if not rej:
                 outs = [peval(r.term, env) for r in s.returns if peval(r.live, env) == ("const", True)]
                 B = ("call", cb, (g,), ())
+                # compute_bounds(g) is geometry_to_shapely(g).bounds (C05 / R05.3): either spelling is the geometry's bounds
+                shp_b_ = ("attr", ("call", ("global", "soundevent.geometry.conversion:geometry_to_shapely", "func"), (g,), ()), "bounds")
+                outs = [subst(o_, {shp_b_: B}) for o_ in outs]
                 c = ("attr", g, "coordinates")
                 if ty == "TimeInterval":
                     want = [("tuple", (("sub", c, ("const", 0)), ("sub", c, ("const", 1))))]
@@ -253,7 +256,20 @@ class C10:
                     f"a {bad[0]} with cast_to_bbox={bad[1]}, raise_on_time_geometries={bad[2]} is {'rejected' if bad[3] else 'converted'} "
                     f"(documented: reject non-boxes unless casting; reject time-only geometries when asked)", s.node.lineno,
                     witness={"type": bad[0], "cast": bad[1], "raise_on_time": bad[2]})
-        if s.returns and all(r.term == ("call", cb, (g,), ()) for r in s.returns):
+        shp_b_ = ("attr", ("call", ("global", "soundevent.geometry.conversion:geometry_to_shapely", "func"), (g,), ()), "bounds")
+        B_ = ("call", cb, (g,), ())
+
+        def as_bounds(t):
+            """compute_bounds(g), geometry_to_shapely(g).bounds, tuple(...) of either, or the four bounds spelled out in order"""
+            t = subst(t, {shp_b_: B_})
+            while t[0] == "call" and t[1] == ("builtin", "tuple") and len(t[2]) == 1 and not t[3]:
+                t = t[2][0]
+            if t[0] in ("tuple", "list") and len(t[1]) == 4 and all(x == ("sub", B_, ("const", i)) for i, x in enumerate(t[1])):
+                return B_
+            if t[0] == "call" and t[1][0] == "global" and t[1][2] == "class" and len(t[2]) == 4 and not t[3] and all(x == ("sub", B_, ("const", i)) for i, x in enumerate(t[2])):
+                return B_  # a NamedTuple record of the four bounds in order: as a tuple, the bounds
+            return t
+        if s.returns and all(as_bounds(r.term) == B_ for r in s.returns):
             ctx.ok("R10.2", site, "returns compute_bounds(geometry)")
         else:
             ctx.bad("R10.2", file, "convert_geometry_to_bbox", "return compute_bounds(geometry)", "the box must be the geometry's bounds", s.node.lineno)
